@@ -16,7 +16,7 @@ def run(facts, tier):
         ("reader dead-reads", lambda fa: [o for o in dead_reads.obligations(fa) if "ebpps" in o["key"]], 6, "every field the EBPPS readers take from the image reaches the restored sketch on every accepting path"),
         ("tautologies", lambda fa: generic_lints.tautologies(fa, ('sampling/',)), 2, "no comparison / assignment / min-max with two identical operands"),
         ("duplicate operands", lambda fa: generic_lints.duplicate_conjuncts(fa, ('sampling/',)), 2, "no logical chain tests the same operand twice"),
-        ("structural triggers", lambda fa: triggers.obligations(fa, ['ebpps_sketch']), 5, "the comparisons that decide when to compress / grow / downsample keep their reviewed boundary (operator and constants)"),
+        ("structural triggers", lambda fa: triggers.obligations(fa, ['ebpps_sketch']), 7, "the comparisons that decide when to compress / grow / downsample keep their reviewed boundary (operator and constants)"),
     ):
         o = f(facts)
         obs += o
